@@ -821,7 +821,7 @@ class Judge:
                         def _to(*_a):
                             raise TimeoutError("no result after 5 s")
                         old_h = signal.signal(signal.SIGALRM, _to)
-                        signal.alarm(5)
+                        signal.alarm(60)      # generous: only a genuine non-termination should ever reach it
                         try:
                             out = f(*args)
                         finally:
@@ -879,10 +879,10 @@ class Judge:
             old_h = signal.signal(signal.SIGALRM, _to)
             cur = None
             try:
-                signal.alarm(10)
+                signal.alarm(120)
                 for cur in pts:
                     out = flat(g.cart2geodetic(*[np.array([v], dtype=np.float32) for v in cur], raw))
-                    signal.alarm(10)
+                    signal.alarm(120)
                     ref = flat(g.cart2geodetic(*cur, raw))
                     tl = self.f32_tol("cart2geodetic", lambda a_, b_, c_: g.cart2geodetic(a_, b_, c_, raw), list(cur), ref, {1, 2}, set())
                     if not all(math.isfinite(v) and (abs(v - w) <= t_ or (k > 0 and abs(circ(v, w)) <= t_)) for k, (v, w, t_) in enumerate(zip(out, ref, tl))):
